@@ -1,5 +1,6 @@
 (* C01 — Route selection follows the documented pattern semantics. Property theorems only. *)
 From Rux Require Import Base Str Norm Rx RxParse Pattern Pat PatFacts Cache Table TableFacts PatTable SelectFacts RoundTrip TableLink.
+From Rux Require Import Consts Chain Dispatch Reg Sys SysFacts SysHistory SysMore.
 
 (* For every table of grammar-level routes (static paths and patterns: literal text, {name}, {name:regex},
    nested optional tails; any method sets; wf_sroute = '/'-free duplicate-free methods, rooted paths, variable
@@ -73,6 +74,31 @@ Theorem C01_string_level_registers : forall o es, Forall wf_entry es ->
   exists rt, reg_routes (new_router o) (map entry_rdef es) = Ok rt /\ rt_equiv rt (build o (map entry_sroute es)).
 Proof. exact reg_routes_equiv. Qed.
 
+(* end to end (SysMore.v): a router built from a registration PROGRAM whose routes are the printable table es answers
+   every lookup - after any history of requests, route cache on or off - with the selection ladder of the spec *)
+Theorem C01_end_to_end_ladder : forall progs hooks o ss s es h m p path,
+  sys_build o ss = Ok s -> Forall wf_entry es -> map entry_rdef es = map rdef_of (s_routes s) ->
+  o_intercept o = [] -> hist_no_slash h -> no_slash m -> format_path (o_strict o) p = Ok path ->
+  qsel (fst (quick_match (s_rt (sys_run progs hooks s h)) m p)) = ladder o (map entry_sroute es) m path.
+Proof. exact sys_ladder_history. Qed.
+
+(* ... and the request is dispatched to exactly that route of the program text, with the documented chain *)
+Theorem C01_end_to_end_dispatch : forall progs hooks o ss s es h m p path i sc pooled,
+  sys_build o ss = Ok s -> Forall wf_entry es -> map entry_rdef es = map rdef_of (s_routes s) -> o_intercept o = [] ->
+  hist_no_slash h -> no_slash m -> format_path (o_strict o) p = Ok path ->
+  ladder o (map entry_sroute es) m path = QFound i None ->
+  let s' := sys_run progs hooks s h in
+  exists r ps,
+    nth_error (den_block (o_strict o) [] [] ss) i = Some r /\
+    fst (quick_match (s_rt s') m p) = QFound i ps /\
+    fst (sys_serve progs hooks s' m p sc pooled) =
+      Some (handle_request (sys_cfg progs hooks s) (str_eqb m OPTIONS) (route_target progs r (opt_params ps) p)
+              (p_x (ctx_init sc pooled))) /\
+    forall is_opt x,
+      fst (assemble (sys_cfg progs hooks s) is_opt (route_target progs r (opt_params ps) p) x) =
+        map progs (den_globals ss ++ r_handlers r ++ [r_main r]).
+Proof. exact sys_chain_selected. Qed.
+
 Print Assumptions C01_selection.
 Print Assumptions C01_sound.
 Print Assumptions C01_complete.
@@ -82,3 +108,5 @@ Print Assumptions C01_text_link.
 Print Assumptions C01_string_level_selection.
 Print Assumptions C01_string_level_lookup.
 Print Assumptions C01_string_level_registers.
+Print Assumptions C01_end_to_end_ladder.
+Print Assumptions C01_end_to_end_dispatch.
